@@ -33,6 +33,7 @@ import (
 	"pgregory.net/rapid"
 
 	"verif/e1"
+	"verif/locks"
 	"verif/oracle"
 	"verif/sqdb"
 	"verif/vt"
@@ -40,6 +41,7 @@ import (
 
 var (
 	env   *sqdb.Env
+	probe *locks.Client
 	files []string // the three fixed files; run() appends the plan's fresh file as files[3]
 )
 
@@ -125,7 +127,14 @@ func setup(r *vt.Run, t *testing.T) {
 			}
 		}
 		env.O.Close("c20")
+		os.Remove(path + ".link")
+		if err := os.Link(path, path+".link"); err != nil {
+			r.Harness(t, "link: %v", err)
+		}
 		files = append(files, path)
+	}
+	if probe, err = locks.StartClient(); err != nil {
+		r.Harness(t, "lockprobe: %v", err)
 	}
 }
 
@@ -142,7 +151,7 @@ type spec struct {
 	Case    []bool // letter case pattern of the keywords in the fresh file's DDL and in parse-fresh statements
 }
 
-var kinds = []string{"parse-fresh", "select", "select-wr", "indexed", "indexed-nocase", "indexed-eq", "indexed-wr", "pk", "rowid", "columns", "low-scan", "parse", "compare", "driver", "open-close", "schema"}
+var kinds = []string{"parse-fresh", "select-probed", "select", "select-wr", "indexed", "indexed-nocase", "indexed-eq", "indexed-wr", "pk", "rowid", "columns", "low-scan", "parse", "compare", "driver", "open-close", "schema"}
 
 var statements = []string{
 	"CREATE TABLE t (a INTEGER PRIMARY KEY, b, c TEXT COLLATE NOCASE)",
@@ -155,7 +164,7 @@ var statements = []string{
 func TestC20Concurrent(t *testing.T) {
 	vt.Exec(t, vt.Check[spec]{
 		ID: "C20", Test: "TestC20Concurrent",
-		Setup: setup, Teardown: func() { env.Close() },
+		Setup: setup, Teardown: func() { probe.Stop(); env.Close() },
 		Gen: func(t *rapid.T) spec {
 			s := spec{Procs: rapid.SampledFrom([]int{1, 2, 4, 8, 16}).Draw(t, "procs"), Yield: rapid.Bool().Draw(t, "yield")}
 			n := rapid.IntRange(2, 16).Draw(t, "workers")
@@ -178,11 +187,21 @@ type handles struct {
 	hi   map[int]*sqlittle.DB
 	lo   map[int]*sdb.Database
 	pool map[int]*sql.DB // shared between goroutines (database/sql is made for that)
+	linked bool          // open the fixed files through their hard links
+}
+
+// name gives the name under which this set of handles opens file f: the
+// handles of every second goroutine use a hard link (the same file).
+func (h *handles) name(f int) string {
+	if h.linked && f < freshFile {
+		return files[f] + ".link"
+	}
+	return files[f]
 }
 
 func (h *handles) high(f int) (*sqlittle.DB, error) {
 	if h.hi[f] == nil {
-		d, err := sqlittle.Open(files[f])
+		d, err := sqlittle.Open(h.name(f))
 		if err != nil {
 			return nil, err
 		}
@@ -193,7 +212,7 @@ func (h *handles) high(f int) (*sqlittle.DB, error) {
 
 func (h *handles) low(f int) (*sdb.Database, error) {
 	if h.lo[f] == nil {
-		d, err := sdb.OpenFile(files[f])
+		d, err := sdb.OpenFile(h.name(f))
 		if err != nil {
 			return nil, err
 		}
@@ -222,12 +241,31 @@ func runOp(h *handles, o opSpec, yield bool, pattern []bool) string {
 	}
 	fail := func(err error) string { return b.String() + "ERR:" + fmt.Sprint(err) }
 	switch o.Kind {
-	case "select", "select-wr", "indexed", "indexed-nocase", "indexed-eq", "indexed-wr", "pk", "rowid", "columns":
+	case "select", "select-probed", "select-wr", "indexed", "indexed-nocase", "indexed-eq", "indexed-wr", "pk", "rowid", "columns":
 		d, err := h.high(o.File)
 		if err != nil {
 			return fail(err)
 		}
 		switch o.Kind {
+		case "select-probed":
+			// inside the first row callback another process is asked whether
+			// this process holds the SHARED lock on the file
+			first := true
+			err = d.Select("t", func(row sqlittle.Row) {
+				if first {
+					first = false
+					st, perr := probe.Probe(files[o.File])
+					switch {
+					case perr != nil:
+						fmt.Fprintf(&b, "probe error %v;", perr)
+					case st.Shared.Type == "read" && st.Shared.Pid == os.Getpid():
+						fmt.Fprint(&b, "locked;")
+					default:
+						fmt.Fprintf(&b, "NOT LOCKED (%s);", st)
+					}
+				}
+				cb(row)
+			}, "a", "b", "c")
 		case "select":
 			err = d.Select("t", cb, "a", "b", "c")
 		case "select-wr":
@@ -407,6 +445,13 @@ func run(r *vt.Run, t vt.TB, s spec) {
 	r.Case(s, len(s.Workers) >= 2 && shared, fmt.Sprintf("procs=%d", s.Procs), fmt.Sprintf("workers<=%d", ((len(s.Workers)+3)/4)*4), fmt.Sprintf("same-file=%v", shared), fmt.Sprintf("yield=%v", s.Yield),
 		fmt.Sprintf("fresh-state-shared=%v", sameFile[freshFile] >= 2))
 	r.Count("operations", nops)
+	for _, w := range s.Workers {
+		for _, o := range w {
+			if o.Kind == "select-probed" {
+				r.Count("op:select-probed", 1)
+			}
+		}
+	}
 	r.Count("operations-on-fresh-state", nlate)
 
 	old := runtime.GOMAXPROCS(s.Procs)
@@ -432,7 +477,7 @@ func run(r *vt.Run, t vt.TB, s spec) {
 					mu.Unlock()
 				}
 			}()
-			h := &handles{hi: map[int]*sqlittle.DB{}, lo: map[int]*sdb.Database{}, pool: pool}
+			h := &handles{hi: map[int]*sqlittle.DB{}, lo: map[int]*sdb.Database{}, pool: pool, linked: wi%2 == 1}
 			defer h.close()
 			<-start
 			for oi, o := range w {
